@@ -46,7 +46,10 @@ def canon_attr(a):
     body = s[s.index('[') + 1:].strip()
     if body.startswith(DROP_ATTRS): return None
     m = re.match(r'derive \( (.*) \) \]$', body)
-    if m: return '#[derive(%s)]' % ','.join(sorted(x.strip() for x in m.group(1).split(',') if x.strip()))
+    if m:
+        # `Debug` and `Hash` add a capability and cannot change what existing code computes
+        ds = sorted(x.strip() for x in m.group(1).split(',') if x.strip() and x.strip() not in ('Debug', 'Hash'))
+        return '#[derive(%s)]' % ','.join(ds) if ds else None
     return s.replace(' ', '')
 
 def segment(toks, prefix, out, translated_lines, fnnames):
@@ -71,6 +74,10 @@ def segment(toks, prefix, out, translated_lines, fnnames):
                 elif d == 0 and t.val in ('{', ';'): break
             j += 1
         header = toks[i:j]
+        # visibility decides who may call an item, not what it computes
+        if header and header[0].val == 'pub':
+            if len(header) > 1 and header[1].val == '(': header = header[match_close(header, 1) + 1:]
+            else: header = header[1:]
         kws = [t.val for t in header if t.kind in ('kw', 'keyword', 'ident') and t.val in ('fn', 'impl', 'trait', 'mod', 'struct', 'enum', 'union', 'macro_rules', 'const', 'static', 'use', 'type')]
         kw = kws[0] if kws else None
         if kw == 'const' and 'fn' in kws[:3]: kw = 'fn'
